@@ -3,7 +3,7 @@
 /verif/seeded/*/meta.json and /tmp/mut/handmut.json (if present; otherwise the committed copy /verif/seeded/handmut.json)."""
 import json, glob, os, re, shutil
 rows = []
-for d in sorted(glob.glob("/verif/seeded/C*-*")):
+for d in sorted(glob.glob("/verif/seeded/C*-*")) + sorted(glob.glob("/verif/seeded/free*-*")):
     m = json.load(open(d + "/meta.json"))
     desc = m["needs_to_manifest_and_description"]
     first = [l.strip() for l in desc.splitlines() if l.strip()]
